@@ -120,9 +120,20 @@ class C12(core.Check):
         return self.dep_codes
 
     # ------------------------------------------------------------ documents
-    def gen_docs(self, r, n, allow_broken=True, allow_includes=False):
-        docs, files = {}, {}
+    def gen_docs(self, r, n, allow_broken=True, allow_includes=False, samename=0.0):
+        """-> docs {id: text}, files {path: text}, paths {id: path of the document}"""
+        docs, files, paths = {}, {}, {}
+        use_samename = r.random() < samename
+        if use_samename:
+            files["/simfs/w/parts/layer.map"] = 'LAYER\n  NAME "from-cwd"\n  TYPE LINE # cwd\nEND\n'
         for i in range(n):
+            if use_samename and r.random() < 0.7:
+                # several projects in different directories, all writing the same relative include name
+                did = f"d{i}"
+                files[f"/simfs/w/p{i}/parts/layer.map"] = f'LAYER\n  NAME "layer-of-project-{i}"\n  TYPE POINT # p{i}\n  GROUP "g{i}"\nEND\n'
+                docs[did] = f'MAP\n  NAME "project{i}" # root {i}\n  INCLUDE "parts/layer.map"\nEND\n'
+                paths[did] = f"/simfs/w/p{i}/root.map"
+                continue
             c = r.random()
             did = f"d{i}"
             if c < 0.45 and self.pool:
@@ -146,7 +157,7 @@ class C12(core.Check):
             if allow_broken and r.random() < 0.2:
                 text = workload.break_text(r, text)
             docs[did] = text
-        return docs, files
+        return docs, files, paths
 
     # ------------------------------------------------------------ generate
     def generate(self, seed, tier):
@@ -161,7 +172,7 @@ class C12(core.Check):
 
     def gen_w1(self, seed, s, tier, faults):
         k, r = s("knobs"), s("ops")
-        docs, files = self.gen_docs(s("workload"), k.choice([2, 3, 4, 6]), allow_includes=True)
+        docs, files, paths = self.gen_docs(s("workload"), k.choice([2, 3, 4, 6]), allow_includes=True, samename=0.25)
         ids = sorted(docs)
         reuse = {x: k.random() < 0.85 for x in ("parser", "transformer", "printer", "validator")}
         if not any(reuse.values()):
@@ -195,12 +206,12 @@ class C12(core.Check):
                 cls = f.choice(["schema", "schema", "schema", "simfs", "grammar"])
                 fl.append({"op": f.choice(["open", "open", "read"]), "cls": cls, "k": f.choice([1, 1, 2, 3, 5, 8, 13, 21, 34]),
                            "err": f.choice(["EIO", "ENOENT", "EACCES"])})
-        return {"prop": "C12", "world": "W1F" if faults else "W1", "seed": seed, "docs": docs, "files": files,
+        return {"prop": "C12", "world": "W1F" if faults else "W1", "seed": seed, "docs": docs, "files": files, "paths": paths,
                 "reuse": reuse, "ops": ops, "faults": fl}
 
     def gen_w2(self, seed, s, tier):
         k, r = s("knobs"), s("ops")
-        docs, files = self.gen_docs(s("workload"), k.choice([1, 2, 3]), allow_includes=False)
+        docs, files, paths = self.gen_docs(s("workload"), k.choice([1, 2, 3]), allow_includes=False, samename=0.2)
         ids = sorted(docs)
         nthreads = k.choice([2, 2, 3, 3, 4]) if tier == "quick" else k.choice([2, 3, 4, 4, 6, 8, 12, 16])
         dicts = [{"doc": d, "kw": {"include_comments": k.random() < 0.4, "include_position": k.random() < 0.3}} for d in ids]
@@ -211,8 +222,11 @@ class C12(core.Check):
                 weights[x] = 0
         if not any(weights.values()):
             weights["loads"] = weights["validate"] = 1
+        if paths:
+            weights["open"] = 10  # projects in different directories with identical relative INCLUDE names: open them concurrently
         names = [a for a in weights if weights[a]]
         share_bias = k.choice([0.2, 0.6, 1.0])
+        same_version = k.choice(VERSIONS[1:]) if k.random() < 0.5 else None
         same_kw = {"include_comments": k.random() < 0.7, "include_position": k.random() < 0.4, "expand_includes": True} if k.random() < 0.5 else None
         threads = []
         for t in range(nthreads):
@@ -220,13 +234,15 @@ class C12(core.Check):
             for _ in range(k.choice([1, 1, 2, 3, 4]) if nthreads <= 8 else k.choice([1, 2])):
                 fn = r.choices(names, [weights[a] for a in names])[0]
                 di = 0 if r.random() < share_bias else r.randrange(len(ids))
+                if paths and fn == "open":
+                    di = (t + len(calls)) % len(ids)
                 if fn in ("loads", "open", "load"):
                     kw = {"include_comments": r.random() < 0.5, "include_position": r.random() < 0.4, "expand_includes": r.random() < 0.8}
                     calls.append({"fn": fn, "doc": ids[di], "kw": dict(same_kw) if same_kw else kw})
                 elif fn in ("dumps", "dump", "save"):
                     calls.append({"fn": fn, "d": di, "kw": dict(PP_CONFIGS[r.randrange(len(PP_CONFIGS))])})
                 elif fn == "validate":
-                    calls.append({"fn": fn, "d": di, "version": r.choice(VERSIONS)})
+                    calls.append({"fn": fn, "d": di, "version": same_version if same_version is not None else r.choice(VERSIONS)})
                 elif fn in ("find", "findall"):
                     calls.append({"fn": fn, "d": di, "list": r.choice(["layers", "classes", "styles"]), "key": r.choice(["name", "NAME", "type", "group", "status"]),
                                   "from_item": r.randrange(4)})
@@ -236,44 +252,53 @@ class C12(core.Check):
                     calls.append({"fn": fn, "d": di, "path": r.choice([["layers", 0], ["layers", 0, "classes", 0], ["web"], ["name"], []])})
                 else:
                     calls.append({"fn": "create", "type": r.choice(["map", "layer", "class", "style", "label", "symbol", "web"]), "version": r.choice(VERSIONS)})
+            if paths and calls and k.random() < 0.7:
+                # every thread starts by opening "its" project
+                calls[0] = {"fn": "open", "doc": ids[t % len(ids)], "kw": dict(same_kw) if same_kw else
+                            {"include_comments": False, "include_position": False, "expand_includes": True}}
             threads.append(calls)
-        sk = k.choice(["random", "random", "pct", "pct", "starve"])
+        sk = k.choice(["random", "random", "pct", "pct", "starve", "fine_start", "fine_start"])
         sched = {"kind": sk, "seed": s("schedule").randrange(1 << 30)}
         if sk == "pct":
             sched["d"] = k.choice([1, 2, 3])
         if sk == "starve":
             sched["victim"] = k.randrange(nthreads)
             sched["stall_frac"] = k.choice([0.3, 0.6, 0.9])
+        if sk == "fine_start":
+            sched["fine_steps"] = k.choice([100, 400, 2000])
         if sk == "random":
             sched["budgets"] = k.choice([[1, 2, 3, 5, 8, 13, 50, 200, 1000], [1, 1, 2, 3], [1, 2, 3, 5, 8, 13], [5, 20, 80], [50, 200, 1000, 5000], [1, 5, 1000]])
-        return {"prop": "C12", "world": "W2", "seed": seed, "docs": docs, "files": files, "dicts": dicts,
+        return {"prop": "C12", "world": "W2", "seed": seed, "docs": docs, "files": files, "paths": paths, "dicts": dicts,
                 "threads": threads, "schedule": sched, "deps": k.random() < 0.25}
 
     # ------------------------------------------------------------ helpers
+    def doc_path(self, case, did):
+        return case.get("paths", {}).get(did) or f"/simfs/w/{did}.map"
+
     def base_files(self, case):
         files = dict(case.get("files", {}))
         for did, text in case["docs"].items():
-            files[f"/simfs/w/{did}.map"] = text
+            files[self.doc_path(case, did)] = text
         return files
 
     def viol(self, inv, kind, detail, **sig):
         return {"invariant": inv, "kind": kind, "sig": dict(sig, world=sig.get("world", "")), "detail": detail}
 
     # ------------------------------------------------------------ W1
-    def do_load(self, parser, xform, text, did, via):
+    def do_load(self, parser, xform, text, path, via):
         if via == "parse":
             tree = parser.parse(text)
         elif via == "parse_file":
-            tree = parser.parse_file(f"/simfs/w/{did}.map")
+            tree = parser.parse_file(path)
         else:
-            with open(f"/simfs/w/{did}.map", "r", encoding="utf-8", newline="") as fp:
+            with open(path, "r", encoding="utf-8", newline="") as fp:
                 tree = parser.load(fp)
         return xform.transform(tree)
 
     def fresh_dict(self, case, did, c, p):
         """loads() of one document with brand-new workers (includes not expanded)."""
         return self.do_load(self.Parser(expand_includes=False, include_comments=c),
-                            self.MapfileToDict(include_position=p, include_comments=c), case["docs"][did], did, "parse")
+                            self.MapfileToDict(include_position=p, include_comments=c), case["docs"][did], self.doc_path(case, did), "parse")
 
     def poke(self, d, key):
         if key:
@@ -303,7 +328,7 @@ class C12(core.Check):
                     return ["skip", None]
                 r = core.call(lambda: self.do_load(self.Parser(expand_includes=op["e"], include_comments=op["c"]),
                                                    self.MapfileToDict(include_position=op["p"], include_comments=op["c"]),
-                                                   case["docs"][op["doc"]], op["doc"], op["via"]))
+                                                   case["docs"][op["doc"]], self.doc_path(case, op["doc"]), op["via"]))
                 return [r[0], r[1]]
             if name == "export":
                 r = core.call(lambda: self.export(self.Validator(), op))
@@ -394,7 +419,7 @@ class C12(core.Check):
                 with simfs.mounted(fs):
                     try:
                         pz, xf = get_parser(op["e"], op["c"]), get_xform(op["p"], op["c"])
-                        got = core.call(lambda: self.do_load(pz, xf, text, op["doc"], op["via"]))
+                        got = core.call(lambda: self.do_load(pz, xf, text, self.doc_path(case, op["doc"]), op["via"]))
                     except Exception as e:  # constructing a worker hit a fault
                         got = ("exc", core.exc_repr(e), e)
                 wk = "parser"
@@ -467,7 +492,7 @@ class C12(core.Check):
         if fn == "loads":
             return core.call(lambda: mf.loads(ctx["docs"][call["doc"]], **call["kw"]))[:2]
         if fn == "open":
-            return core.call(lambda: mf.open(f"/simfs/w/{call['doc']}.map", **call["kw"]))[:2]
+            return core.call(lambda: mf.open(ctx["paths"].get(call["doc"]) or f"/simfs/w/{call['doc']}.map", **call["kw"]))[:2]
         if fn == "load":
             return core.call(lambda: mf.load(io.StringIO(ctx["docs"][call["doc"]]), **call["kw"]))[:2]
         if fn == "create":
@@ -544,7 +569,7 @@ class C12(core.Check):
                 return out
 
             dicts = [pickle.loads(base64.b64decode(b)) if b else None for b in core.in_fork(build_inputs)]
-            ctx = {"docs": case["docs"], "dicts": dicts}
+            ctx = {"docs": case["docs"], "dicts": dicts, "paths": case.get("paths", {})}
             frozen_inputs = [core.freeze(d) for d in dicts]
 
             # ---- reference results: every call alone, in its own pristine fork
